@@ -57,6 +57,9 @@ func main() {
 		}
 	}
 	r := ev.Start("C18", "exploration")
+	if !*childFlag {
+		runParent(r) // never returns
+	}
 	r.Rule("codec: seeded reflective values of every regattapb message type (all oneof arms incl. none, optional fields unset/zero/value, nil/empty/nasty/large bytes, nested sequences), " +
 		"decoded by the registered codec into a fresh object and, for Command and SnapshotChunk, into objects recycled with ResetVT / ReturnToVTPool after holding a different larger message; " +
 		"compressors: seeded payloads 0 B–8 MiB of six kinds, 16/32/64 goroutines exchanging compressed payloads; streams: seeded command sequences (0–2000 commands, values 0 B–2 MiB) " +
@@ -137,7 +140,7 @@ func main() {
 			var c streamCase
 			_ = json.Unmarshal(doc.Case, &c)
 			runStreamCase(se, c)
-		case "race":
+		case "race", "crash":
 			// schedule dependent: re-run the whole workload of this seed/tier and see whether a race is reported again
 			runAll(r, ce, se)
 			raceVerdicts(r)
@@ -146,7 +149,7 @@ func main() {
 			os.Exit(2)
 		}
 		g.close()
-		r.Finish()
+		finish(r)
 	}
 
 	runAll(r, ce, se)
@@ -208,7 +211,7 @@ func main() {
 	if r.Get("oracle_disagreements") == 0 {
 		r.Count("oracles_agree", 1)
 	}
-	r.Finish()
+	finish(r)
 }
 
 var stopProfile = func() {}
